@@ -315,40 +315,46 @@ PROPS = {
                      "the first statement of each __eq__ and returns False; exercised by the bounded run)"],
     ),
     "C16": dict(
-        level="exploration",
-        # the builders of the disjunctive graph that are within reach are proved and reported; the agent-task builders, the
-        # solved graph's acyclicity / longest path and the disjunctive edges of flexible instances are bounded: claimed as bounded
-        functions=["JobShopGraph.__init__", "JobShopGraph.add_operation_nodes", "JobShopGraph.add_node", "JobShopGraph.add_edge",
+        level="proof",
+        functions=["build_disjunctive_graph", "build_agent_task_graph", "build_agent_task_graph_with_jobs",
+                   "build_complete_agent_task_graph",
+                   "add_disjunctive_edges", "add_conjunctive_edges", "add_source_sink_nodes", "add_source_sink_edges",
+                   "add_machine_nodes", "add_operation_machine_edges", "add_machine_machine_edges",
+                   "add_same_job_operations_edges", "add_job_nodes", "add_operation_job_edges", "add_job_job_edges",
+                   "add_global_node", "add_machine_global_edges", "add_job_global_edges",
+                   "JobShopGraph.__init__", "JobShopGraph.add_operation_nodes", "JobShopGraph.add_node", "JobShopGraph.add_edge",
                    "JobShopGraph.nodes", "JobShopGraph.nodes_by_type", "JobShopGraph.nodes_by_job", "JobShopGraph.nodes_by_machine",
-                   "Node.__init__", "Node.node_id", "Node.node_id.setter", "Node.operation", "Node.machine_id", "Node.job_id",
-                   "add_conjunctive_edges", "add_source_sink_nodes", "add_source_sink_edges", "add_disjunctive_edges",
-                   "build_disjunctive_graph"],
+                   "Node.__init__", "Node.node_id", "Node.node_id.setter", "Node.operation", "Node.machine_id", "Node.job_id"],
         lemmas=[],
         tierb=True,
         trusted=["networkx through the contracts of contracts/graphs.py: a DiGraph is a node set and an edge map over an injective "
-                 "pairing of node ids (0 = no edge, else 1 + type code); add_node, add_edge (overwrites the type of an existing "
-                 "edge), remove_node (with every incident edge), remove_nodes_from, isolates, `in` mean what their names say",
+                 "pairing of node ids (0 = no edge, else 1 + type code, 100 = no type attribute); add_node, add_edge (overwrites "
+                 "the type of an existing edge), remove_node (with every incident edge), remove_nodes_from, isolates, `in` mean "
+                 "what their names say",
                  "collections.defaultdict(list) keyed by NodeType = a total map type -> list, all lists empty at creation; "
-                 "itertools.combinations(xs, 2) = each index pair i < j exactly once",
+                 "itertools.combinations(xs, 2) = each index pair i < j exactly once (ghost bijection CombK / CombA / CombB)",
                  "allocation layout of the graph's lists as left by JobShopGraph.__init__ (TablesOK: the rows of the type / "
-                 "machine / job tables lie between the tables; proved for __init__, preserved by every verified mutator)"],
+                 "machine / job tables lie between the tables; proved for __init__, preserved by every verified mutator)",
+                 "ghost maps: $$mpos (node id -> index in its machine row), $jbase / $gid (id of the first job node / of the "
+                 "global node); consequences by induction of the prefix sums cumL stated as pre-conditions"],
         assumptions=[A_VALID, "operations numbered by JobShopInstance (operation_id = number of earlier operations); the instance "
                      "is older than the graph",
-                     "proved (reported, not enough to claim the property): JobShopGraph(instance) has exactly one node per "
-                     "operation, node k carries the operation whose operation_id is k (node id = operation id), listed at its "
-                     "position in its job's row and in the OPERATION row; nothing removed, no edges; add_node gives the next id "
-                     "and keeps GraphOK; add_edge sets exactly the edge (u, v) to the given type, raises ValidationError iff an end "
-                     "is not in the graph; add_conjunctive_edges adds exactly the edges between nodes of successive operations of a "
-                     "job, typed conjunctive; add_source_sink_nodes appends source then sink (ids N, N+1); add_source_sink_edges "
-                     "adds exactly source -> first and last -> sink of every job, typed conjunctive; nothing else changes; for "
-                     "NON-FLEXIBLE instances add_disjunctive_edges adds exactly both directions between every two operations "
-                     "sharing their machine (itertools.combinations as a bijection onto index pairs, ghost position map mpos), "
-                     "and build_disjunctive_graph returns a new graph with N + 2 nodes (operations by id, source, sink) whose "
-                     "edge map is, for ALL pairs (u, v): conjunctive for source->first, last->sink and successive operations of a "
-                     "job, else disjunctive for two different operations sharing a machine, else absent",
-                     "bounded only: disjunctive edges of flexible instances, the agent-task builders (machine / job / global nodes and their edges), "
-                     "the solved disjunctive graph (acyclic, longest path vs makespan), default-argument / shared-node effects "
-                     "across graphs"],
+                     "NON-FLEXIBLE instances for everything that goes through the per-machine rows (disjunctive edges, "
+                     "operation-machine edges and the four composite builders); the node bookkeeping, conjunctive / source-sink / "
+                     "same-job / job / global builders are proved for flexible instances as well",
+                     "proved: JobShopGraph(instance) has exactly one node per operation and node k carries the operation whose "
+                     "operation_id is k; add_node gives the next id and keeps GraphOK; add_edge sets exactly the edge (u, v) to "
+                     "the given type and raises ValidationError iff an end is not in the graph; each of the 14 building blocks "
+                     "adds EXACTLY its edges / nodes (stated for all pairs (u, v): new edge map = If(condition, type, old)); "
+                     "build_disjunctive_graph: N + 2 nodes (operations by id, source, sink), conjunctive for source->first, "
+                     "last->sink and successive operations of a job, else disjunctive between two different operations sharing a "
+                     "machine, else no edge; build_agent_task_graph / _with_jobs / build_complete_agent_task_graph: operations, "
+                     "then one node per machine, per job, the global node, and exactly the operation-machine, machine-machine, "
+                     "same-job, operation-job, job-job and global edges of that variant, no more, no fewer",
+                     "bounded only: flexible instances for the machine-row based builders, the solved disjunctive graph "
+                     "(acyclic; longest path <= makespan, = for dispatcher-built schedules: a graph-theoretic theorem, no "
+                     "function computes it), default-argument / shared-node effects across graphs, unused machine ids in the "
+                     "agent-task graphs are covered by the proof (one node per machine id below num_machines)"],
     ),
     "C17": dict(
         level="exploration",
